@@ -23,6 +23,9 @@ type c11Init struct {
 	setup func(dir string) string // prepares the sandbox, returns the key path
 }
 
+// the states of the valid-key family: the key each holds; they are explored to depth 2
+var c11FamilyKey = map[string][]byte{}
+
 func c11Key(seed byte) []byte {
 	k := make([]byte, 64)
 	for i := range k {
@@ -48,7 +51,27 @@ func c11Inits() []c11Init {
 		}
 	}
 	valid := base64.StdEncoding.EncodeToString(c11Key(7))
-	return []c11Init{
+	// the family of valid keys: the base64 text of the key starting with EVERY character of the alphabet, the all-zero
+	// and all-ones keys, a key whose text is full of '+' and '/', a key that spells words - a reader that strips, trims
+	// or sniffs the text must still load each of them.  Explored to depth 2.
+	var family []c11Init
+	const b64chars = "ABCDEFGHIJKLMNOPQRSTUVWXYZabcdefghijklmnopqrstuvwxyz0123456789+/"
+	addKey := func(name string, k []byte) {
+		family = append(family, c11Init{name, "valid", file(base64.StdEncoding.EncodeToString(k), 0o600)})
+		c11FamilyKey[name] = k
+	}
+	for i := 0; i < 64; i++ {
+		k := c11Key(byte(40 + i))
+		k[0] = byte(i<<2) | (k[0] & 3)
+		addKey("valid-text-starts-with-"+b64chars[i:i+1], k)
+	}
+	addKey("valid-all-zero-bytes", make([]byte, 64))
+	addKey("valid-all-ones-bytes", bytes.Repeat([]byte{0xff}, 64))
+	addKey("valid-text-of-plus-and-slash", bytes.Repeat([]byte{0xfb, 0xff, 0xbf}, 22)[:64])
+	if w, err := base64.StdEncoding.DecodeString("base64" + strings.Repeat("keyfile0", 10) + "=="); err == nil && len(w) == 64 {
+		addKey("valid-text-spells-words", w)
+	}
+	return append(family, []c11Init{
 		{"absent", "absent", func(dir string) string { return filepath.Join(dir, "the.key") }},
 		{"valid", "valid", file(valid, 0o600)},
 		{"valid-mode-0644", "valid", file(valid, 0o644)},
@@ -96,7 +119,13 @@ func c11Inits() []c11Init {
 			os.WriteFile(filepath.Join(dir, "plainfile"), []byte("x"), 0o644)
 			return filepath.Join(dir, "plainfile", "the.key")
 		}},
-	}
+		{"directory-not-empty", "unusable", func(dir string) string {
+			p := filepath.Join(dir, "the.key")
+			os.Mkdir(p, 0o755)
+			os.WriteFile(filepath.Join(p, "inner.key"), []byte(valid), 0o600)
+			return p
+		}},
+	}...)
 }
 
 const c11Secret1, c11Secret2 = "alice.secret.one@example.com", "Bob's secret phrase ② \"quoted\""
@@ -197,6 +226,9 @@ func c11Trace(c *Ctx, init c11Init, ops []int, sandbox string) (states []string)
 	st := c11State{class: init.class}
 	if init.class == "valid" || init.class == "valid-ws" {
 		st.key = c11Key(7)
+		if k := c11FamilyKey[init.name]; k != nil {
+			st.key = k
+		}
 	}
 	generated := false
 	var lastCT, lastPT string // a ciphertext produced under the current key, for decrypt
@@ -452,12 +484,12 @@ func c11Run(c *Ctx) {
 					seenStates[inits[ii].name+"/"+s] = true
 				}
 				c.Distinct(fmt.Sprintf("%s %v", inits[ii].name, ops))
-				if c.Shard == 0 && len(ops) == depth {
+				if c.Shard == 0 && len(ops) == depth && ii%7 == 0 {
 					c.Sample(map[string]any{"initial_state": inits[ii].name, "operations": fmt.Sprint(ops)})
 				}
 			}
 		}
-		if d == depth {
+		if d == depth || (c11FamilyKey[inits[ii].name] != nil && d == 2) {
 			return
 		}
 		for op := 0; op < len(c11OpNames); op++ {
@@ -560,7 +592,7 @@ func c11Post(c *Ctx, m *Part) {
 func init() {
 	register(&PropDef{
 		ID: "C11", Level: "model_checking",
-		Rule:        "explicit-state search with the real CLI: 21 initial states of the key path (absent; valid with mode 0600 / 0644; valid + LF / CRLF; a symbolic link to a valid key; empty; 32-, 63-, 65-, 66-, 96-, 128-byte keys; not base64; base64url alphabet; 64 raw bytes; directory; the null device; a symbolic link to the null device; parent missing; below a regular file) x EVERY sequence of 1..3 (thorough 1..4) operations over {redact in1 --encrypt, redact in2 --encrypt, redact without --encrypt, decrypt, redact --encrypt of an input with an over-long second line (fails after one good line), of a cut gzip input (fails mid-stream), of a missing input (fails before reading)} = 21 x 399 traces, each replayed from a fresh sandbox; after every transition the observed key path (type, bytes, mode), exit status and output file are compared with the reference model (absent -> valid(K'), 64 bytes, base64, 0600, reads back, ciphertexts under the stored key; a FAILING run from absent either leaves no key and no ciphertext line, or a well-formed key under which every line it wrote decrypts, and that key is what later runs use; valid -> untouched, ciphertexts under K; valid with trailing white space: accepted or refused, untouched either way; unusable / parent missing -> non-zero exit, untouched, no output line, no plaintext; no --encrypt and decrypt never touch the key path; decrypt succeeds exactly with a valid key). states = distinct (initial state, abstract state) pairs reached; plus 60 CLI generations + 2000 GenerateKey calls pairwise distinct (observation) and one strace run for write ordering",
+		Rule:        "explicit-state search with the real CLI: 22 initial states of the key path explored to depth 3 (thorough 4) and 68 more to depth 2 - the family of valid keys: the base64 text starting with each of the 64 characters of the alphabet, the all-zero and all-ones keys, a text of '+' and '/', a text that spells words - (absent; valid with mode 0600 / 0644; valid + LF / CRLF; a symbolic link to a valid key; empty; 32-, 63-, 65-, 66-, 96-, 128-byte keys; not base64; base64url alphabet; 64 raw bytes; directory, empty and not; the null device; a symbolic link to the null device; parent missing; below a regular file) x EVERY sequence of 1..3 (thorough 1..4) operations over {redact in1 --encrypt, redact in2 --encrypt, redact without --encrypt, decrypt, redact --encrypt of an input with an over-long second line (fails after one good line), of a cut gzip input (fails mid-stream), of a missing input (fails before reading)} = 21 x 399 traces, each replayed from a fresh sandbox; after every transition the observed key path (type, bytes, mode), exit status and output file are compared with the reference model (absent -> valid(K'), 64 bytes, base64, 0600, reads back, ciphertexts under the stored key; a FAILING run from absent either leaves no key and no ciphertext line, or a well-formed key under which every line it wrote decrypts, and that key is what later runs use; valid -> untouched, ciphertexts under K; valid with trailing white space: accepted or refused, untouched either way; unusable / parent missing -> non-zero exit, untouched, no output line, no plaintext; no --encrypt and decrypt never touch the key path; decrypt succeeds exactly with a valid key). states = distinct (initial state, abstract state) pairs reached; plus 60 CLI generations + 2000 GenerateKey calls pairwise distinct (observation) and one strace run for write ordering",
 		Assumptions: []string{"'unreadable' key files cannot be produced when running as root", "distinctness of generated keys is an observation, not a decision", "a valid key followed by a newline may be accepted or refused; both outcomes must leave it untouched"},
 		Run:         c11Run, Post: c11Post,
 	})
